@@ -40,11 +40,15 @@ func init() {
 	}
 }
 
-const (
-	vTopic     = "orders"
-	vPartition = int32(0)
-	vPrefix    = "default/orders/0/"
+const vPartition = int32(0)
+
+// the partition under test: "orders" exists in the default metadata; "fresh" does not (auto-create)
+var (
+	vTopic  = "orders"
+	vPrefix = "default/orders/0/"
 )
+
+func vSetTopic(t string) { vTopic, vPrefix = t, "default/"+t+"/0/" }
 
 type vTidKey struct{}
 
@@ -91,12 +95,17 @@ type vThread struct {
 	segArr  *vArrival
 	idxArr  *vArrival
 	pubArr  *vArrival
+	nxtArr  *vArrival // parked in store.NextOffset (getPartitionLog's singleflight callback)
+	mkArr   *vArrival // parked in store.CreateTopic (ensureTopic after ErrUnknownTopic)
 	segOut  string
 	idxOut  string
 	segDesc string
 }
 
 type vEpoch struct {
+	lazy    bool                    // the partition log is opened by the produce requests themselves
+	seen    []*storage.PartitionLog // distinct logs ever registered in h.logs for the partition
+	inits   int                     // successful NextOffset calls of getPartitionLog callbacks
 	dead    bool
 	h       *handler
 	plog    *storage.PartitionLog
@@ -244,6 +253,55 @@ func (s *vStore) UpdateOffsets(ctx context.Context, topic string, partition int3
 		return errVerifDead
 	default:
 		return errors.New("verif: injected store failure")
+	}
+}
+
+// park blocks the calling goroutine at a store gate until the schedule releases it.
+func (s *vStore) park(th *vThread, set func(*vArrival)) (string, bool) {
+	vw.mu.Lock()
+	if s.ep.dead {
+		vw.mu.Unlock()
+		return "dead", false
+	}
+	arr := &vArrival{release: make(chan string, 1)}
+	set(arr)
+	vw.mu.Unlock()
+	return <-arr.release, true
+}
+
+func (s *vStore) NextOffset(ctx context.Context, topic string, partition int32) (int64, error) {
+	th := vThreadOf(ctx)
+	if th == nil {
+		return s.Store.NextOffset(ctx, topic, partition)
+	}
+	switch out, _ := s.park(th, func(a *vArrival) { th.nxtArr = a }); out {
+	case "ok":
+		n, err := s.Store.NextOffset(ctx, topic, partition)
+		if err == nil {
+			vw.mu.Lock()
+			s.ep.inits++
+			vw.mu.Unlock()
+		}
+		return n, err
+	case "dead":
+		return 0, errVerifDead
+	default:
+		return 0, errors.New("verif: injected store failure")
+	}
+}
+
+func (s *vStore) CreateTopic(ctx context.Context, spec metadata.TopicSpec) (*protocol.MetadataTopic, error) {
+	th := vThreadOf(ctx)
+	if th == nil {
+		return s.Store.CreateTopic(ctx, spec)
+	}
+	switch out, _ := s.park(th, func(a *vArrival) { th.mkArr = a }); out {
+	case "ok":
+		return s.Store.CreateTopic(ctx, spec)
+	case "dead":
+		return nil, errVerifDead
+	default:
+		return nil, errors.New("verif: injected store failure")
 	}
 }
 
@@ -519,6 +577,12 @@ func vPcOf(th *vThread, stacks map[string]string) string {
 		tag = "F"
 	}
 	switch {
+	case th.nxtArr != nil:
+		return "nxt"
+	case th.mkArr != nil:
+		return "mk"
+	case strings.Contains(st, "singleflight.(*Group).Do(") && !strings.Contains(st, "singleflight.(*Group).doCall("):
+		return "wait"
 	case th.pubArr != nil:
 		return fmt.Sprintf("pub%s(%d)", tag, th.pubArr.last+1)
 	case strings.Contains(st, "(*PartitionLog).uploadFlush("):
@@ -575,7 +639,27 @@ func vStateLine(stacks map[string]string) string {
 	defer vw.mu.Unlock()
 	pcs := "-"
 	mem := "down"
-	if vep != nil && !vep.dead && vep.plog != nil {
+	if vep != nil && !vep.dead && vep.lazy {
+		vw.mu.Unlock()
+		vep.h.logMu.RLock()
+		cur := vep.h.logs[vTopic][vPartition]
+		vep.h.logMu.RUnlock()
+		vw.mu.Lock()
+		if cur != nil {
+			known := false
+			for _, p := range vep.seen {
+				known = known || p == cur
+			}
+			if !known {
+				vep.seen = append(vep.seen, cur)
+			}
+		}
+		vep.plog = cur
+		if cur == nil {
+			mem = "unopened"
+		}
+	}
+	if vep != nil && !vep.dead && (vep.plog != nil || vep.lazy) {
 		ids := make([]int, 0, len(vep.threads))
 		for id := range vep.threads {
 			ids = append(ids, id)
@@ -596,9 +680,12 @@ func vStateLine(stacks map[string]string) string {
 		if nt > 0 {
 			pcs = strings.Join(parts, ",")
 		}
-		vw.mu.Unlock()
-		ls := vep.plog.VerifLogState()
-		vw.mu.Lock()
+		var ls storage.VerifLogState
+		if vep.plog != nil {
+			vw.mu.Unlock()
+			ls = vep.plog.VerifLogState()
+			vw.mu.Lock()
+		}
 		segs := "-"
 		if len(ls.Segments) > 0 {
 			sp := make([]string, len(ls.Segments))
@@ -611,18 +698,32 @@ func vStateLine(stacks map[string]string) string {
 		if ls.Flushing {
 			fl = 1
 		}
-		mem = fmt.Sprintf("%d/%s/%s/%d/%s", ls.Next, vDescribeRB(ls.Buffer), vDescribeRB(ls.Inflight), fl, segs)
+		if vep.plog != nil {
+			mem = fmt.Sprintf("%d/%s/%s/%d/%s", ls.Next, vDescribeRB(ls.Buffer), vDescribeRB(ls.Inflight), fl, segs)
+		}
+	}
+	extra := ""
+	if vep != nil && !vep.dead && vep.lazy {
+		logs := len(vep.seen)
+		if vep.inits > logs {
+			logs = vep.inits
+		}
+		exists := 0
+		if _, err := vw.store.NextOffset(context.Background(), vTopic, vPartition); err == nil {
+			exists = 1
+		}
+		extra = fmt.Sprintf(" logs=%d topic=%d", logs, exists)
 	}
 	hw, err := vw.store.NextOffset(context.Background(), vTopic, vPartition)
 	hws := strconv.FormatInt(hw, 10)
 	if err != nil {
-		hws = "err"
+		hws = "0" // unknown topic: nothing published yet
 	}
 	acked := "-"
 	if len(vw.acked) > 0 {
 		acked = strings.Join(vw.acked, ".")
 	}
-	return fmt.Sprintf("pcs=%s mem=%s s3=%s ix=%s hw=%s acked=%s", pcs, mem, vShowObjects(vw.segs), vShowObjects(vw.idxs), hws, acked)
+	return fmt.Sprintf("pcs=%s mem=%s s3=%s ix=%s hw=%s acked=%s%s", pcs, mem, vShowObjects(vw.segs), vShowObjects(vw.idxs), hws, acked, extra)
 }
 
 // ---------------------------------------------------------------- scheduler commands
@@ -641,12 +742,12 @@ func vKill() {
 	vw.mu.Lock()
 	vep.dead = true
 	for _, th := range vep.threads {
-		for _, a := range []*vArrival{th.segArr, th.idxArr, th.pubArr} {
+		for _, a := range []*vArrival{th.segArr, th.idxArr, th.pubArr, th.nxtArr, th.mkArr} {
 			if a != nil {
 				a.release <- "dead"
 			}
 		}
-		th.segArr, th.idxArr, th.pubArr = nil, nil, nil
+		th.segArr, th.idxArr, th.pubArr, th.nxtArr, th.mkArr = nil, nil, nil, nil, nil
 		close(th.cmd)
 	}
 	vw.mu.Unlock()
@@ -657,7 +758,57 @@ func vKill() {
 	vSettle()
 }
 
+// vBoot starts a broker incarnation WITHOUT opening the partition: the first produce requests do.
+func vBoot(maxBatches, maxMessages int) {
+	ep := vNewEpoch(maxBatches, maxMessages)
+	ep.lazy = true
+	vep = ep
+}
+
 func vOpen(maxBatches, maxMessages int) error {
+	ep := vNewEpoch(maxBatches, maxMessages)
+	plog, err := ep.h.getPartitionLog(context.Background(), vTopic, vPartition)
+	if err != nil {
+		ep.h.coordinator.Stop()
+		return err
+	}
+	ep.plog = plog
+	vep = ep
+	return nil
+}
+
+// vRace: k goroutines ask a freshly started broker for the partition log at the same time
+// (no gates: the window between the fast-path miss and logInit.Do has no seam); returns the
+// number of rounds in which they did not all get the same PartitionLog.
+func vRace(k, rounds, maxBatches, maxMessages int) int {
+	bad := 0
+	for r := 0; r < rounds; r++ {
+		ep := vNewEpoch(maxBatches, maxMessages)
+		got := make([]*storage.PartitionLog, k)
+		var wg sync.WaitGroup
+		start := make(chan struct{})
+		for i := 0; i < k; i++ {
+			wg.Add(1)
+			go func(i int) {
+				defer wg.Done()
+				<-start
+				got[i], _ = ep.h.getPartitionLog(context.Background(), vTopic, vPartition)
+			}(i)
+		}
+		close(start)
+		wg.Wait()
+		for i := 1; i < k; i++ {
+			if got[i] != got[0] {
+				bad++
+				break
+			}
+		}
+		ep.h.coordinator.Stop()
+	}
+	return bad
+}
+
+func vNewEpoch(maxBatches, maxMessages int) *vEpoch {
 	ep := &vEpoch{threads: map[int]*vThread{}}
 	logger := slog.New(slog.NewTextHandler(io.Discard, &slog.HandlerOptions{}))
 	brokerInfo := protocol.MetadataBroker{NodeID: 1, Host: "localhost", Port: 19092}
@@ -669,14 +820,7 @@ func vOpen(maxBatches, maxMessages int) error {
 	h.s3Health = broker.NewS3HealthMonitor(broker.S3HealthConfig{ErrorWarn: 2, ErrorCrit: 3, LatencyWarn: time.Hour, LatencyCrit: 2 * time.Hour})
 	h.flushOnAck = true
 	ep.h = h
-	plog, err := h.getPartitionLog(context.Background(), vTopic, vPartition)
-	if err != nil {
-		h.coordinator.Stop()
-		return err
-	}
-	ep.plog = plog
-	vep = ep
-	return nil
+	return ep
 }
 
 func vThreadNew(t int, auto bool, n int) *vThread {
@@ -745,7 +889,7 @@ func verifC01Main() {
 		fmt.Fprintln(w, res+" "+line)
 		w.Flush()
 	}
-	up := func() bool { return vep != nil && vep.plog != nil }
+	up := func() bool { return vep != nil && (vep.plog != nil || vep.lazy) }
 	for sc.Scan() {
 		f := strings.Fields(sc.Text())
 		for len(f) > 0 && strings.HasPrefix(f[len(f)-1], "~") { // wake-order hints are for the model only
@@ -772,6 +916,51 @@ func verifC01Main() {
 			}
 			maxBatches, maxMessages = kb, km
 			vNewWorld()
+			vSetTopic("orders")
+			emit("ok")
+		case "rnew":
+			if len(f) != 3 || (f[1] != "exists" && f[1] != "auto") {
+				fmt.Fprintln(w, "bad-op")
+				w.Flush()
+				continue
+			}
+			maxBatches, maxMessages = 0, 0
+			vNewWorld()
+			if f[1] == "exists" {
+				vSetTopic("orders")
+			} else {
+				vSetTopic("fresh")
+			}
+			vBoot(maxBatches, maxMessages)
+			emit("ok")
+		case "rrace":
+			k, ok1 := atoi(1)
+			rounds, ok2 := atoi(2)
+			if !ok1 || !ok2 || len(f) != 3 || up() {
+				fmt.Fprintln(w, "bad-op")
+				w.Flush()
+				continue
+			}
+			bad := vRace(k, rounds, maxBatches, maxMessages)
+			vSettle()
+			fmt.Fprintf(w, "ok races=%d rounds=%d\n", bad, rounds)
+			w.Flush()
+		case "rprod":
+			t, ok1 := atoi(1)
+			if !ok1 || len(f) != 2 {
+				fmt.Fprintln(w, "bad-op")
+				w.Flush()
+				continue
+			}
+			if vep == nil || !vep.lazy || vep.threads[t] != nil {
+				emit("disabled")
+				continue
+			}
+			th := vThreadNew(t, true, 1)
+			vw.mu.Lock()
+			th.status = "busy"
+			vw.mu.Unlock()
+			th.cmd <- []string{"produce"}
 			emit("ok")
 		case "restore":
 			if up() || len(f) != 1 {
@@ -798,7 +987,7 @@ func verifC01Main() {
 				w.Flush()
 				continue
 			}
-			if !up() || n < 1 || n > 63 || vep.threads[t] != nil {
+			if !up() || vep.plog == nil || n < 1 || n > 63 || vep.threads[t] != nil {
 				emit("disabled")
 				continue
 			}
@@ -831,7 +1020,7 @@ func verifC01Main() {
 			}
 			th.cmd <- []string{"flush"}
 			emit("ok")
-		case "seg", "idx", "pub":
+		case "seg", "idx", "pub", "nxt", "mk":
 			t, ok1 := atoi(1)
 			if !ok1 || len(f) != 3 || (f[2] != "ok" && f[2] != "fail") {
 				fmt.Fprintln(w, "bad-op")
@@ -855,6 +1044,10 @@ func verifC01Main() {
 				arr = th.idxArr
 			case "pub":
 				arr = th.pubArr
+			case "nxt":
+				arr = th.nxtArr
+			case "mk":
+				arr = th.mkArr
 			}
 			if arr == nil {
 				vw.mu.Unlock()
@@ -874,6 +1067,10 @@ func verifC01Main() {
 				}
 			case "pub":
 				th.pubArr = nil
+			case "nxt":
+				th.nxtArr = nil
+			case "mk":
+				th.mkArr = nil
 			}
 			vw.mu.Unlock()
 			if f[0] == "pub" && f[2] == "ok" {
@@ -883,7 +1080,7 @@ func verifC01Main() {
 			arr.release <- f[2]
 			emit("ok")
 		case "readcheck":
-			if !up() || len(f) != 1 {
+			if !up() || vep.plog == nil || len(f) != 1 {
 				fmt.Fprintln(w, "disabled")
 				w.Flush()
 				continue
